@@ -1320,3 +1320,66 @@ func init() {
 	srvGens["srv-msg"] = genSrvMsg
 	srvGens["srv-soup"] = genSrvSoup
 }
+
+// srv-burst (C19, C17): the same kinds of traffic written in bursts, with handlers completing concurrently, so the
+// read loop, the stream loop, the write loop, handler goroutines and SETTINGS handling really interleave. Nothing
+// here is compared with the model (the results are `mon` lines): it feeds the pool tracker, the panic monitor and,
+// in the race-detector build, the race detector.
+func genSrvBurst(p *prng, thorough bool, w *bufio.Writer) {
+	g := newSgen(p, w)
+	rounds := 25
+	if thorough {
+		rounds = 250
+	}
+	for c := 0; c < rounds; c++ {
+		mcs := 4 + p.intn(20)
+		g.newConn(mcs, 0, 0)
+		var burst []byte
+		flush := func() {
+			if len(burst) > 0 {
+				g.line("srv %s burst %s", g.id, hexOrDash(burst))
+				burst = nil
+			}
+		}
+		burst = append(burst, frameBytes(4, 0, 0, settingsPayload(4, uint32(1000+p.intn(100000))))...)
+		for round := 0; round < 3+p.intn(4); round++ {
+			n := 1 + p.intn(mcs)
+			for i := 0; i < n; i++ {
+				sid := g.sid()
+				r := g.randRequest(sid)
+				for _, u := range g.requestUnits(r, g.randRender()) {
+					for _, fr := range u() {
+						burst = append(burst, fr...)
+					}
+				}
+				switch p.intn(6) {
+				case 0:
+					burst = append(burst, frameBytes(3, 0, sid, u32(8))...)
+				case 1:
+					burst = append(burst, frameBytes(8, 0, sid, u32(uint32(1+p.intn(50000))))...)
+				case 2:
+					burst = append(burst, frameBytes(4, 0, 0, settingsPayload(1, uint32(p.intn(5000)), 4, uint32(p.intn(200000))))...)
+				case 3:
+					burst = append(burst, frameBytes(6, 0, 0, []byte("abcdefgh"))...)
+				}
+				if p.chance(1, 3) {
+					flush()
+				}
+			}
+			flush()
+			g.line("srv %s settle", g.id)
+			// handlers finish all at once while more SETTINGS and window updates arrive
+			burst = append(burst, frameBytes(4, 0, 0, settingsPayload(1, uint32(p.intn(8000))))...)
+			burst = append(burst, frameBytes(8, 0, 0, u32(1<<20))...)
+			g.line("srv %s doneall st=200 body=pat:%d", g.id, 1+p.intn(60000))
+			flush()
+			g.line("srv %s settle", g.id)
+		}
+		if p.chance(1, 2) {
+			g.line("srv %s cut", g.id)
+		}
+	}
+	g.line("srv %s end", g.id)
+}
+
+func init() { srvGens["srv-burst"] = genSrvBurst }
